@@ -1,4 +1,4 @@
--- PINNED by bin/pin_tables: copy of Gen/Dispatch.lean as generated from /repo at 596f79e — regenerate, do not edit
+-- PINNED by bin/pin_tables: copy of Gen/Dispatch.lean as generated from /repo at acd082a — regenerate, do not edit
 namespace Ggql.Pinned
 def dispatchOrder : List String := ["resolver", "any", "reflect"]
 def opFallbackAnyName : Bool := false
@@ -20,6 +20,7 @@ def inputExtendMapOrder : Bool := false
 def toolOmitsDirectives : Bool := false
 def toolEmbedRaw : Bool := false
 def eventVarsEmpty : Bool := false
+def subOrderByMap : Bool := false
 def schemaDuringScan : Bool := false
 def objectUnchecked : Bool := false
 def argsInPlace : Bool := false
